@@ -27,7 +27,7 @@ META = {
         "fermionic_core.FermionicArray.fuse",
     ],
     "floors": {
-        "quick": {"evaluations": 5000, "distinct_nontrivial": 800, "tables": {"route/mode": 1500, "route/prefuse-contracted": 600, "route/fuse-free-before-after": 600, "kind/fermionic": 1000, "feature/sole-free-leg-prefused": 60, "feature/misaligned": 300, "feature/many-legs": 500}},
+        "quick": {"evaluations": 5000, "distinct_nontrivial": 800, "tables": {"route/mode": 1500, "route/prefuse-contracted": 600, "route/fuse-free-before-after": 600, "kind/fermionic": 1000, "feature/sole-free-leg-prefused": 60, "feature/misaligned": 300, "feature/many-legs": 500, "form/align_axes-negative-axis-of-second-operand-ranks-differ": 1000}},
         "thorough": {"evaluations": 200000, "distinct_nontrivial": 30000, "tables": {"route/prefuse-contracted": 30000, "route/fuse-free-before-after": 30000, "feature/sole-free-leg-prefused": 3000}},
     },
     "wall": {"quick": 300, "thorough": 1700},
@@ -115,7 +115,7 @@ def same(ctx, what, base, other, leafref, wit, prefused=False, exact_tables=Fals
 
 def case(ctx, rng, manylegs=False):
     sr = ctx.sr
-    sym = rng.choice(gen.SYMS5)
+    sym = gen.pick_sym(rng)
     ferm = rng.random() < 0.5
     vals = gen.Values(rng, "int", rng.choice(["float64", "float64", "complex128"]))
     if manylegs:
@@ -172,16 +172,26 @@ def case(ctx, rng, manylegs=False):
                 ctx.nontrivial(("mode", mode, sig))
         # --- pre-fuse the contracted legs
         if len(axa) >= 1:
+            # axes a la tensordot: negative positions count from the end of EACH operand
+            al_a, al_b = tuple(axa), tuple(axb)
+            if rng.random() < 0.35:
+                al_a = tuple(i - a.ndim if rng.random() < 0.5 else i for i in axa)
+                al_b = tuple(j - b.ndim if rng.random() < 0.7 else j for j in axb)
+                ctx.count("form", "align_axes-negative-axes")
+                if a.ndim != b.ndim and any(j < 0 for j in al_b):
+                    ctx.count("form", "align_axes-negative-axis-of-second-operand-ranks-differ")
+            if rng.random() < 0.3:
+                al_a, al_b = list(al_a), list(al_b)
             if rng.random() < 0.3:
                 import autoray as ar
 
-                o = ctx.call(lambda: ar.do("align_axes", a, b, (tuple(axa), tuple(axb))))
+                o = ctx.call(lambda: ar.do("align_axes", a, b, (al_a, al_b)))
                 ctx.count("form", "align_axes-via-autoray")
             elif rng.random() < 0.3:
-                o = ctx.call(lambda: a.align_axes(b, (tuple(axa), tuple(axb))))
+                o = ctx.call(lambda: a.align_axes(b, (al_a, al_b)))
                 ctx.count("form", "align_axes-method")
             else:
-                o = ctx.call(sr.align_axes, a, b, (tuple(axa), tuple(axb)))
+                o = ctx.call(sr.align_axes, a, b, (al_a, al_b))
             if not o.ok:
                 raise Raised("align_axes", o)
             a2, b2 = o.value
